@@ -13,7 +13,7 @@
 From Coq Require Import String Ascii ZArith NArith QArith List Bool.
 From Typify Require Import Base.Json Spec.Schema Spec.Valid IR.TypeIR IR.Serde Check.Covers Check.Exact
   Proofs.ExactProofs.
-From Typify Require Algo.StrConv Proofs.StrConvProofs Algo.Emit Proofs.EmitProofs.
+From Typify Require Algo.StrConv Proofs.StrConvProofs Algo.Emit Proofs.EmitProofs Algo.Defaults.
 Import ListNotations.
 Close Scope Q_scope.
 Close Scope string_scope.
@@ -327,6 +327,34 @@ Theorem C05_exact_deep_sound :
     forall s v, viol re_match D s v ->
     forall t f, exact re_match D T A s t = true -> de re_match native_ok T f t v = None.
 Proof. exact exact_deep_sound. Qed.
+
+
+(* ================================================================== 6. the unchecked constructors:
+   `impl Default` and the `#[serde(default = ...)]` functions build a constrained newtype through its
+   PRIVATE tuple constructor from the default [d] recorded in the type space - never through
+   FromStr / TryFrom / Deserialize.  A default that passed the add-time check (Algo/Defaults.v
+   [validate_value]: C06's model of defaults.rs after fix 9117497, tied to the real code by C06's
+   check; C06_newtype_default_checked) satisfies the constraint, so the value these constructors
+   build is one the type's own Deserialize accepts.  The check additionally EXECUTES every such
+   constructor on the compiled code and feeds the built value back to Deserialize and to the oracle. *)
+Theorem C05_validated_default_accepted_string :
+  forall (re_match native_ok : ustring -> ustring -> bool) (T : space) (f f' : nat) (t : id)
+         name def inner mx mn pat (d : json) k,
+    get_det T t = Some (DNewtype name def inner (CString mx mn pat)) ->
+    Defaults.validate_value re_match T (S f) t d = Defaults.ROk k ->
+    de re_match native_ok T (S f') t d <> None.
+Proof. exact validated_default_accepted_string. Qed.
+
+Theorem C05_validated_default_satisfies_list :
+  forall (re_match : ustring -> ustring -> bool) (T : space) (f : nat) (t : id) name def inner c (d : json) k,
+    get_det T t = Some (DNewtype name def inner c) ->
+    Defaults.validate_value re_match T (S f) t d = Defaults.ROk k ->
+    match c with
+    | CEnum vs => existsb (fun x => json_eqb x d) vs = true
+    | CDeny vs => existsb (fun x => json_eqb x d) vs = false
+    | _ => True
+    end.
+Proof. exact validated_default_satisfies_list. Qed.
 
 (* ================================================================== witnesses *)
 Definition noset := mkSettings None [] false [].
